@@ -377,7 +377,7 @@ fn extra_projections() -> Vec<Pj> {
 }
 
 // ---- floats: the same generic code instantiated at f32 / f64 ----------------------------------------
-trait Flt: Real + MulAdd<Self, Self, Output = Self> + std::fmt::Debug + Send + Sync + 'static {
+trait Flt: Real + vek::num_traits::FloatConst + MulAdd<Self, Self, Output = Self> + std::fmt::Debug + Send + Sync + 'static {
     const NAME: &'static str; const EPS: f64;
     /// exponent of the extreme scale (2^+-K must leave every intermediate of the ORIGINAL code in the normal range)
     const KBIG: i32;
@@ -1044,6 +1044,337 @@ fn main() {
     let float_rule = |e: &str, kb: i32, km: i32| format!("element type {e}: 4 dyadic model-views (TS, rotation+shear+translation, 2 dense) x 4 dyadic projections (off-centre frustum-like, off-centre ortho-like, lh-zo perspective-like, dense projective) x 3 viewports (one with negative height, one fractional with negative width) x 3 points / 3 window points (thorough: 4 viewports, 7 points, and every law also at 1/8, 1/4, 1/2, 3/4 of the extreme exponent) x {{_no,_zo}} x {{row,col}}, argument forms in rotation, every input exactly representable: (1) result within 256 eps x (magnitude of the exact pipeline evaluated on absolute values) of the exact rational pipeline on the same inputs (skipped and counted when |clip w| or |pre-image w| is below 2^-10 of its absolute-value evaluation); (2) bitwise scaling laws: P and MV times powers of two up to 2^+-{kb} (world_to_viewport) / 2^+-{km} each (viewport_to_world: the inverse's determinant scales with the 4th power) leave the result unchanged, viewport (and window x,y) times 2^+-{kb} scales window x,y exactly / leaves the world point unchanged, point times 2^e with the first three MV columns times 2^-e leaves the window point unchanged / scales the world point, picking_region is unchanged when centre, size and viewport are all times 2^+-{kb}; non-trivial: all but the skipped");
     rep.section("floats f64: forward-error closeness to the exact pipeline and bitwise power-of-two scaling laws at 2^+-400", &float_rule("f64", 400, 100), true, false, |s| float_section::<f64>(s));
     rep.section("floats f32: forward-error closeness to the exact pipeline and bitwise power-of-two scaling laws at 2^+-40", &float_rule("f32", 40, 10), true, false, |s| float_section::<f32>(s));
+
+    // =================================================================================================
+    // second audit: values NEXT TO the special ones (exact), results that are exact by construction and translation laws (floats)
+    // -------------------------------------------------------------------------------------------------
+    let e55 = pow2(-55); // below X's epsilon 2^-52 and below any plausible hand-written threshold
+    rep.section("nearly-special values on exact rationals: matrices next to the identity / next to affine / next to singular, clip w next to +-1, viewports and points of size 2^-55, nearly square viewports, window depths next to 0 and 1, regions next to the viewport size and next to its centre",
+        "e = 2^-55 (thorough: each of 2^-55, 2^-53, 2^-52 = the exact type's epsilon, 2^-51, 2^-45, 2^-30). (a)-(c) matrices N in {I + e E00, I - e E12, I + e E03, (1+e) I, I + e E30, I - e E32 (bottom row next to (0,0,0,1)), I + e E33, I - e E33, -(I + e E33) (clip w next to 1 / -1), [[1,0,0,0],[0,1,0,0],[0,0,1,1],[0,0,1,1+e]] (det = e), dense#1 with row 3 replaced by row 0 + row 2 + e e3 (det = 9e)} used as model-view with projections {identity, frustum off-centre (real builder), dense-projective#1} and as projection with model-views {identity, T(1,2,3), dense#1} x viewports {(0,0,640,480),(10,-20,3,-7),(e,-e,e,3e),(-5,5,1,1+e)} x points {(1,-1,2),(1/2,-3/4,5/3),0,(e,-e,2e),(1+e,1,1),(0,0,1)} (the e-sized viewport only with e-free points) x {_no,_zo} x {row,col}, argument forms in rotation: (a) world_to_viewport equals the reference pipeline, (b) viewport_to_world of that window point returns the point, (c) window points {vp.x+vp.w/4, vp.x+vp.w(1-e)} x {vp.y+2vp.h/3} x depths {0, 1, 1-e, e, 3/7} unproject to adj(P MV)/det; (d) picking_region: viewports {(0,0,640,480),(10,-20,3,-7),(7/2,-1/3,5/4,9/7)} x centres {viewport centre, viewport origin} + {(0,0),(e,0),(0,-e),(e,e)} x sizes {|vp.wh|, |vp.wh|(1+e), |vp.wh|(1-e), (|vp.w|, |vp.h|(1+e)), (1,1+e), (e,3e)} x {row,col} x three argument forms: the corner law; non-trivial: (a)-(c) clip w != 0 / pre-image finite, (d) all", true, false, |s| {
+        let names = ["matrix-nearly-identity", "matrix-nearly-affine", "clip-w-nearly-1", "clip-w-nearly-minus-1", "matrix-nearly-singular", "near-matrix-as-modelview", "near-matrix-as-projection",
+            "viewport-2^-55", "viewport-nearly-square", "point-2^-55", "point-nearly-equal-lanes", "round-trip-world", "window-depth-nearly-0-or-1", "window-x-nearly-on-the-border",
+            "region-nearly-viewport-size", "region-nearly-centred", "region-nearly-at-the-origin", "region-nearly-square", "region-2^-55", "flavour-no", "flavour-zo", "layout-row", "layout-col", "clip-w-zero(skipped)", "pre-image-at-infinity(skipped)"];
+        s.require_classes(&names[..23]);
+        let cnt = Cnt::new(&names);
+        let nfail = AtomicU64::new(0);
+        let lost: std::sync::Mutex<std::collections::BTreeMap<String, u64>> = std::sync::Mutex::new(Default::default());
+        // thorough: e just below / at / just above X's epsilon 2^-52 and two larger hand-written-threshold sizes
+        let es: Vec<(X, String)> = if s.thorough() { [-55, -53, -52, -51, -45, -30].iter().map(|&k| (pow2(k), format!("2^{}", k))).collect() } else { vec![(e55, "2^-55".to_string())] };
+        for (e, elab) in es.iter().map(|(e, l)| (*e, l.as_str())) {
+        let eij = |i: usize, j: usize, v: X| { let mut m = ident::<X, 4>(); m[i][j] = m[i][j] + v; m };
+        let d1 = ints4([[2, 1, 0, 3], [1, 3, 1, -1], [0, -2, 1, 2], [1, 0, 1, 1]]);
+        let mut ns1 = d1; for j in 0..4 { ns1[3][j] = d1[0][j] + d1[2][j]; } ns1[3][3] = ns1[3][3] + e;
+        let mut blk = ident::<X, 4>(); blk[2][3] = qi(1); blk[3][2] = qi(1); blk[3][3] = qi(1) + e;
+        let near: Vec<(&'static str, &'static str, A<X, 4>)> = vec![
+            ("I + e E00", "matrix-nearly-identity", eij(0, 0, e)), ("I - e E12", "matrix-nearly-identity", eij(1, 2, -e)), ("I + e E03", "matrix-nearly-identity", eij(0, 3, e)),
+            ("(1+e) I", "matrix-nearly-identity", scale4(&ident::<X, 4>(), qi(1) + e)),
+            ("I + e E30", "matrix-nearly-affine", eij(3, 0, e)), ("I - e E32", "matrix-nearly-affine", eij(3, 2, -e)),
+            ("I + e E33", "clip-w-nearly-1", eij(3, 3, e)), ("I - e E33", "clip-w-nearly-1", eij(3, 3, -e)), ("-(I + e E33)", "clip-w-nearly-minus-1", scale4(&eij(3, 3, e), qi(-1))),
+            ("[[1,0,0,0],[0,1,0,0],[0,0,1,1],[0,0,1,1+e]]", "matrix-nearly-singular", blk), ("dense#1, row 3 := row 0 + row 2 + e e3", "matrix-nearly-singular", ns1),
+        ];
+        let frustum = pjs.iter().find(|p| p.family == "frustum").expect("a frustum projection").m;
+        let partners_p: Vec<(&str, A<X, 4>)> = vec![("identity", ident::<X, 4>()), ("frustum off-centre", frustum), ("dense-projective#1", ints4([[2, 0, 1, 1], [1, 3, 0, -2], [0, 1, 2, 1], [1, -1, 1, 3]]))];
+        let partners_mv: Vec<(&str, A<X, 4>)> = vec![("identity", ident::<X, 4>()), ("T(1,2,3)", mv1[2].m), ("dense#1", d1)];
+        // (near index, partner index, near matrix sits in the model-view slot?)
+        let combos: Vec<(usize, usize, bool)> = (0..near.len()).flat_map(|i| (0..3).flat_map(move |j| [(i, j, true), (i, j, false)])).collect();
+        let vpn: Vec<[X; 4]> = vec![[qi(0), qi(0), qi(640), qi(480)], [qi(10), qi(-20), qi(3), qi(-7)], [e, -e, e, qi(3) * e], [qi(-5), qi(5), qi(1), qi(1) + e]];
+        let ptn: Vec<[X; 3]> = vec![[qi(1), qi(-1), qi(2)], [q(1, 2), q(-3, 4), q(5, 3)], [qi(0), qi(0), qi(0)], [e, -e, qi(2) * e], [qi(1) + e, qi(1), qi(1)], [qi(0), qi(0), qi(1)]];
+        let lose = |ni: usize, vi: usize, what: &str| { *lost.lock().unwrap().entry(format!("e = {} | {} | viewport#{} | {}", elab, near[ni].0, vi, what)).or_insert(0) += 1; };
+        combos.par_iter().for_each(|&(ni, pi, as_mv)| {
+            let (nname, ncls, nm) = &near[ni];
+            let (mvn, mvm, pn, pmx) = if as_mv { (*nname, *nm, partners_p[pi].0, partners_p[pi].1) } else { (partners_mv[pi].0, partners_mv[pi].1, *nname, *nm) };
+            let mut thr = Thr::new(3, &nfail);
+            let mut k = ni + 3 * pi + as_mv as usize;
+            let inv = catch(|| inv4(&mmul(&pmx, &mvm))).ok();
+            for (vi, vp) in vpn.iter().enumerate() {
+                for (qi_, pt) in ptn.iter().enumerate() {
+                    if vi == 2 && (qi_ == 3 || qi_ == 4) { continue; } // e-sized viewport with e-bearing points: the reference leaves the i128 range
+                    let clip = match catch(|| ref_clip(&mvm, &pmx, pt)) { Ok(c) => c, Err(_) => { s.eval(false); s.unmodelled("overflow in the reference"); lose(ni, vi, "reference"); continue; } };
+                    if clip[3] == qi(0) { s.eval(false); cnt.add("clip-w-zero(skipped)", 1); continue; }
+                    let wgt = 7_000_000 + ((ni * 10 + pi) * 2 + as_mv as usize) as u64 * 100 + (vi * 10 + qi_) as u64;
+                    for fl in FLS {
+                        let want = match catch(|| ref_window(&clip, vp, fl)) { Ok(w) => w, Err(_) => { s.eval(false); s.unmodelled("overflow in the reference"); lose(ni, vi, "reference"); continue; } };
+                        for row in [true, false] {
+                            k += 1; let form = FORMS[(k + k / 4) % 4]; let form2 = FORMS[(k / 4 + 2 * k) % 4];
+                            s.eval(true);
+                            cnt.add(ncls, 1); cnt.add(if as_mv { "near-matrix-as-modelview" } else { "near-matrix-as-projection" }, 1);
+                            cnt.add(if fl == Fl::NO { "flavour-no" } else { "flavour-zo" }, 1); cnt.add(if row { "layout-row" } else { "layout-col" }, 1);
+                            if vi == 2 { cnt.add("viewport-2^-55", 1); } if vi == 3 { cnt.add("viewport-nearly-square", 1); }
+                            if qi_ == 3 { cnt.add("point-2^-55", 1); } if qi_ == 4 { cnt.add("point-nearly-equal-lanes", 1); }
+                            let site = format!("Mat4<{}>::world_to_viewport_{}", lay(row), fl.s());
+                            let inp = || json!({"modelview": mvn, "MV": jmat(&mvm), "projection": pn, "P": jmat(&pmx), "e": elab, "viewport(x,y,w,h)": jxs(vp), "point": jxs(pt), "point_passed_as": form.s()});
+                            let Some(got) = s.call(&site, inp, || w2v_form::<X>(form, row, fl, pt, &mvm, &pmx, vp)) else { lose(ni, vi, "world_to_viewport"); continue };
+                            if got != want { if thr.allow(&site, CLS_FWD) { s.violation_w(&site, CLS_FWD, json!({"input": inp(), "clip": jxs(&clip), "got": jxs(&got), "want": jxs(&want)}), wgt); } continue; }
+                            if ni >= 4 && s.wants_sample() { s.sample(json!({"input": inp(), "clip": jxs(&clip), "window": jxs(&want), "flavour": fl.s()})); }
+                            if inv.is_none() { continue; }
+                            s.eval(true); cnt.add("round-trip-world", 1);
+                            let usite = format!("Mat4<{}>::viewport_to_world_{}", lay(row), fl.s());
+                            if let Some(back) = s.call(&usite, inp, || v2w_form::<X>(form2, row, fl, &got, &mvm, &pmx, vp)) {
+                                if back != *pt && thr.allow(&usite, CLS_RT) { s.violation_w(&usite, CLS_RT, json!({"input": inp(), "window": jxs(&got), "window_passed_as": form2.s(), "got": jxs(&back), "want": jxs(pt)}), wgt); }
+                            } else { lose(ni, vi, "viewport_to_world(round trip)"); }
+                        }
+                    }
+                }
+                // (c) window points next to the border and depths next to 0 and 1
+                let Some(inv) = inv.as_ref() else { continue };
+                let mut rays: Vec<([X; 3], bool, bool)> = Vec::new();
+                for (xi_, x) in [vp[0] + vp[2] / qi(4), vp[0] + vp[2] * (qi(1) - e)].into_iter().enumerate() { for (zi, z) in [qi(0), qi(1), qi(1) - e, e, q(3, 7)].into_iter().enumerate() {
+                    if vi == 2 && (xi_ == 1 || zi == 2 || zi == 3) { continue; }
+                    rays.push(([x, vp[1] + vp[3] * q(2, 3), z], xi_ == 1, zi == 2 || zi == 3));
+                } }
+                for (ri, (ray, xnear, znear)) in rays.into_iter().enumerate() { for fl in FLS {
+                    let h = match catch(|| ref_unproject_h(inv, vp, &ray, fl)) { Ok(h) => h, Err(_) => { s.eval(false); s.unmodelled("overflow in the reference"); lose(ni, vi, "reference"); continue; } };
+                    if h[3] == qi(0) { s.eval(false); cnt.add("pre-image-at-infinity(skipped)", 1); continue; }
+                    let want = match catch(|| [h[0] / h[3], h[1] / h[3], h[2] / h[3]]) { Ok(w) => w, Err(_) => { s.eval(false); s.unmodelled("overflow in the reference"); lose(ni, vi, "reference"); continue; } };
+                    for row in [true, false] {
+                        k += 1; let form = FORMS[(k + k / 4) % 4];
+                        s.eval(true); if xnear { cnt.add("window-x-nearly-on-the-border", 1); } if znear { cnt.add("window-depth-nearly-0-or-1", 1); }
+                        let site = format!("Mat4<{}>::viewport_to_world_{}", lay(row), fl.s());
+                        let inp = || json!({"modelview": mvn, "MV": jmat(&mvm), "projection": pn, "P": jmat(&pmx), "e": elab, "viewport(x,y,w,h)": jxs(vp), "window_point": jxs(&ray), "window_passed_as": form.s()});
+                        if let Some(got) = s.call(&site, inp, || v2w_form::<X>(form, row, fl, &ray, &mvm, &pmx, vp)) {
+                            if got != want && thr.allow(&site, CLS_UN) { s.violation_w(&site, CLS_UN, json!({"input": inp(), "got": jxs(&got), "want(pre-image under the reference projection)": jxs(&want)}), 7_500_000 + ((ni * 10 + pi) * 2 + as_mv as usize) as u64 * 100 + (vi * 10 + ri) as u64); }
+                        } else { lose(ni, vi, "viewport_to_world(window point)"); }
+                    }
+                } }
+            }
+        });
+        // (d) picking regions next to the viewport size / centre / origin
+        let vpp: Vec<[X; 4]> = vec![[qi(0), qi(0), qi(640), qi(480)], [qi(10), qi(-20), qi(3), qi(-7)], [q(7, 2), q(-1, 3), q(5, 4), q(9, 7)]];
+        let mut k = 0usize;
+        for (vi, vp) in vpp.iter().enumerate() {
+            let (aw, ah) = (Real::abs(vp[2]), Real::abs(vp[3]));
+            let bases = [[vp[0] + vp[2] / qi(2), vp[1] + vp[3] / qi(2)], [vp[0], vp[1]]];
+            let offs = [[qi(0), qi(0)], [e, qi(0)], [qi(0), -e], [e, e]];
+            let sizes = [[aw, ah], [aw * (qi(1) + e), ah * (qi(1) + e)], [aw * (qi(1) - e), ah * (qi(1) - e)], [aw, ah * (qi(1) + e)], [qi(1), qi(1) + e], [e, qi(3) * e]];
+            for (bi, b) in bases.iter().enumerate() { for (oi, o) in offs.iter().enumerate() { for (di, d) in sizes.iter().enumerate() {
+                let c = [b[0] + o[0], b[1] + o[1]];
+                for row in [true, false] {
+                    k += 1;
+                    s.eval(true); cnt.add(if row { "layout-row" } else { "layout-col" }, 1);
+                    if di >= 1 && di <= 3 { cnt.add("region-nearly-viewport-size", 1); } if di == 4 { cnt.add("region-nearly-square", 1); } if di == 5 { cnt.add("region-2^-55", 1); }
+                    if oi > 0 { cnt.add(if bi == 0 { "region-nearly-centred" } else { "region-nearly-at-the-origin" }, 1); }
+                    let inp = || json!({"center": jxs(&c), "delta": jxs(d), "viewport(x,y,w,h)": jxs(vp), "e": elab, "passed_as": PICK_FORMS[k % 3]});
+                    let site = format!("Mat4<{}>::picking_region", lay(row));
+                    if let Some(m) = s.call(&site, inp, || pick_form::<X>(k, row, &c, d, vp)) {
+                        match catch(|| pick_bad(&m, &c, d, vp)) {
+                            Ok(Some(bad)) => s.violation_w(&site, catch(|| pick_class(&m, &c, d, vp)).unwrap_or(CLS_PICK), json!({"input": inp(), "matrix": jmat(&m), "first_failing_corner": bad}), 7_900_000 + (vi * 100 + bi * 50 + oi * 10 + di) as u64),
+                            Ok(None) => {}
+                            Err(_) => s.unmodelled("overflow in the reference"),
+                        }
+                    }
+                }
+            } } }
+        }
+        s.meta("alphabet", json!({"e": es.iter().map(|e| e.1.clone()).collect::<Vec<_>>(), "near_matrices": near.len(), "partners_per_slot": 3, "viewports": vpn.len(), "points": ptn.len(), "window_points_per_viewport": 10, "picking": {"viewports": vpp.len(), "centres": 8, "sizes": 6}}));
+        }
+        cnt.flush(s);
+        s.meta("failing_cases(all counted; first 3 per matrix pair and site|class recorded)", json!(nfail.load(Relaxed)));
+        s.meta("cases lost to the i128 range of the exact rationals (e | near matrix | viewport | where)", json!(*lost.lock().unwrap()));
+    });
+
+    // -------------------------------------------------------------------------------------------------
+    /// odd integers n with n * (1/n) != 1 in F (the first two): a reciprocal-multiply in place of a division is visible on them
+    fn bad_recips<F: Flt>(count: usize) -> Vec<i64> { (3..1000i64).step_by(2).filter(|&n| { let w = F::of(n as f64); w * (F::one() / w) != F::one() }).take(count).collect() }
+    fn float_exact_section<F: Flt>(s: &Section) {
+        let names = ["exact:clip-edge x=+-w,y=+-w,z=+-w (w not a power of two)", "exact:window corner -> ndc +-1 (extent not a power of two)", "exact:pre-image lane = pre-image w (not a power of two)", "exact:picking region = viewport / quarter / quadrant (extent not a power of two)",
+            "law:window and viewport translated far from the origin", "law:picking centre and viewport translated far from the origin", "law:world and camera translated far from the origin", "flavour-no", "flavour-zo", "layout-row", "layout-col"];
+        s.require_classes(&names);
+        let th = s.thorough();
+        let ns = bad_recips::<F>(if th { 8 } else { 2 });
+        assert!(ns.len() == if th { 8 } else { 2 }, "too few small odd n with n * (1/n) != 1 in {}", F::NAME);
+        // viewports with extents +-n, +-n' for consecutive pairs of these integers
+        let nvps: Vec<[X; 4]> = ns.chunks(2).flat_map(|c| { let (n1, n2) = (c[0], c[1]); [[qi(0), qi(0), xi(n1), xi(n2)], [qi(10), qi(-20), xi(-n1), xi(n2)], [qi(-3), qi(5), xi(n2), xi(-n1)]] }).collect();
+        // thorough: the translations also at 2^-4, 2^-8, 2^-12, 2^-16 of the extreme one
+        let tsteps: Vec<i32> = if th { vec![0, 4, 8, 12, 16] } else { vec![0] };
+        let jf = |a: &[F]| json!(a.iter().map(|v| format!("{:?}", v)).collect::<Vec<_>>());
+        let same = |a: &[F; 3], b: &[F; 3]| (0..3).all(|i| a[i] == b[i]);
+        let fcls = |s: &Section, fl: Fl, row: bool| { s.class(if fl == Fl::NO { "flavour-no" } else { "flavour-zo" }); s.class(if row { "layout-row" } else { "layout-col" }); };
+        let tmat = |t: [i64; 3]| { let mut m = ident::<X, 4>(); for i in 0..3 { m[i][3] = xi(t[i]); } m };
+        let mut k = 0usize;
+        // ---- E1: clip position on the edge of the clip cube, clip w = n: ndc = +-n/n = +-1 exactly, every later step is exact
+        for &n in &ns {
+            let mut dn = ident::<X, 4>(); dn[3][3] = xi(n);
+            let swap = ints4([[1, 0, 0, 0], [0, 1, 0, 0], [0, 0, 0, 1], [0, 0, 1, 0]]);
+            for (pname, px, persp) in [("diag(1,1,1,n)", dn, false), ("z and w swapped (clip w = eye z)", swap, true)] { for t in [[0i64, 0, 0], [3, -5, 2]] {
+                let mvx = tmat(t);
+                let (mvf, pf) = (mat_f::<F>(&mvx), mat_f::<F>(&px));
+                for sg in 0..8u32 {
+                    let (sx, sy, sz) = (if sg & 1 == 0 { 1 } else { -1 }, if sg & 2 == 0 { 1 } else { -1 }, if sg & 4 == 0 { 1 } else { -1 });
+                    if persp && sz < 0 { continue; }
+                    let pt = [xi(sx * n - t[0]), xi(sy * n - t[1]), xi(sz * n - t[2])];
+                    let clip = ref_clip(&mvx, &px, &pt);
+                    assert!(clip[3] == xi(n) && clip[0] == xi(sx * n) && clip[1] == xi(sy * n), "float-exact alphabet: clip position not on the edge");
+                    let ptf = arr_f::<F, 3>(&pt);
+                    for vp in [[qi(0), qi(0), qi(640), qi(480)], [qi(0), qi(0), qi(-640), qi(480)], [qi(10), qi(-20), qi(4), qi(-8)], [pow2(20), -pow2(20), qi(4), qi(8)]] {
+                        let vpf = arr_f::<F, 4>(&vp);
+                        for fl in FLS { for row in [true, false] {
+                            k += 1; let form = FORMS[(k + k / 4) % 4];
+                            s.eval(true); s.class(names[0]); fcls(s, fl, row);
+                            let want = ref_window(&clip, &vp, fl);
+                            let site = format!("Mat4<{}>::world_to_viewport_{}<{}>", lay(row), fl.s(), F::NAME);
+                            let inp = || json!({"MV": jmat(&mvx), "projection": pname, "P": jmat(&px), "n (n*(1/n) != 1)": n, "viewport(x,y,w,h)": jxs(&vp), "point": jxs(&pt), "clip": jxs(&clip), "element": F::NAME});
+                            let Some(got) = s.call(&site, inp, || w2v_form::<F>(form, row, fl, &ptf, &mvf, &pf, &vpf)) else { continue };
+                            let ncmp = if persp { 2 } else { 3 };
+                            if (0..ncmp).any(|i| got[i] != to_f::<F>(want[i])) {
+                                s.violation_w(&site, "point-on-the-edge-of-the-clip-cube-not-mapped-exactly-onto-the-viewport-edge", json!({"input": inp(), "got": jf(&got), "want(exact: ndc = +-w/w = +-1, all later steps exact)": jxs(&want[..ncmp])}), 100 + n as u64);
+                            }
+                        } }
+                    }
+                }
+            } }
+        }
+        // ---- E2: window corners of a viewport with extents (n1, n2): ndc = +-n/n = +-1 exactly; dyadic matrices whose inverse is exact
+        let dsc = { let mut m = ident::<X, 4>(); m[0][0] = qi(2); m[1][1] = qi(4); m[2][2] = q(1, 2); m };
+        for (mvx, px) in [(ident::<X, 4>(), ident::<X, 4>()), (tmat([3, -5, 2]), ident::<X, 4>()), (ident::<X, 4>(), dsc), (tmat([3, -5, 2]), dsc)] {
+            let inv = inv4(&mmul(&px, &mvx));
+            let (mvf, pf) = (mat_f::<F>(&mvx), mat_f::<F>(&px));
+            for vp in nvps.iter().copied() {
+                let vpf = arr_f::<F, 4>(&vp);
+                for x in [vp[0], vp[0] + vp[2], vp[0] + vp[2] / qi(2)] { for y in [vp[1], vp[1] + vp[3]] { for z in [qi(0), q(1, 4), qi(1), q(3, 2)] {
+                    let ray = [x, y, z];
+                    let rayf = arr_f::<F, 3>(&ray);
+                    for fl in FLS {
+                        let h = ref_unproject_h(&inv, &vp, &ray, fl);
+                        let want = [h[0] / h[3], h[1] / h[3], h[2] / h[3]];
+                        for row in [true, false] {
+                            k += 1; let form = FORMS[(k + k / 4) % 4];
+                            s.eval(true); s.class(names[1]); fcls(s, fl, row);
+                            let site = format!("Mat4<{}>::viewport_to_world_{}<{}>", lay(row), fl.s(), F::NAME);
+                            let inp = || json!({"MV": jmat(&mvx), "P": jmat(&px), "viewport(x,y,w,h)": jxs(&vp), "window_point": jxs(&ray), "element": F::NAME});
+                            let Some(got) = s.call(&site, inp, || v2w_form::<F>(form, row, fl, &rayf, &mvf, &pf, &vpf)) else { continue };
+                            if (0..3).any(|i| got[i] != to_f::<F>(want[i])) {
+                                s.violation_w(&site, "window-corner-not-unprojected-exactly", json!({"input": inp(), "got": jf(&got), "want(exact: (x - vp.x)/vp.w in {0,1/2,1}, dyadic matrices)": jxs(&want)}), 200);
+                            }
+                        }
+                    }
+                } } }
+            }
+        }
+        // ---- E2b: integer unimodular P MV whose inverse makes pre-image lane k = pre-image w = n: lane k of the result is n/n = 1 exactly
+        for lane in 0..3usize { for &n in &ns {
+            let other = if lane == 0 { 1 } else { 0 };
+            let mut minv = ident::<X, 4>(); minv[lane][3] = qi(1); minv[3][other] = qi(1);
+            let pm = inv4(&minv);
+            let vp = [qi(0), qi(0), qi(2), qi(2)];
+            for (mvx, px) in [(pm, ident::<X, 4>()), (ident::<X, 4>(), pm)] {
+                let (mvf, pf, vpf) = (mat_f::<F>(&mvx), mat_f::<F>(&px), arr_f::<F, 4>(&vp));
+                for fl in FLS {
+                    // ndc x = ndc y = n - 1; lane 2 also needs ndc z = n - 1
+                    let z = if lane == 2 { match fl { Fl::NO => q(n as i128, 2), Fl::ZO => xi(n - 1) } } else { q(1, 2) };
+                    let ray = [xi(n), xi(n), z];
+                    let h = ref_unproject_h(&minv, &vp, &ray, fl);
+                    assert!(h[3] == xi(n) && h[lane] == xi(n), "float-exact alphabet: pre-image lane != pre-image w");
+                    let rayf = arr_f::<F, 3>(&ray);
+                    for row in [true, false] {
+                        k += 1; let form = FORMS[(k + k / 4) % 4];
+                        s.eval(true); s.class(names[2]); fcls(s, fl, row);
+                        let site = format!("Mat4<{}>::viewport_to_world_{}<{}>", lay(row), fl.s(), F::NAME);
+                        let inp = || json!({"MV": jmat(&mvx), "P": jmat(&px), "inverse of P MV": jmat(&minv), "viewport(x,y,w,h)": jxs(&vp), "window_point": jxs(&ray), "pre-image(homogeneous)": jxs(&h), "element": F::NAME});
+                        let Some(got) = s.call(&site, inp, || v2w_form::<F>(form, row, fl, &rayf, &mvf, &pf, &vpf)) else { continue };
+                        if got[lane] != F::one() { s.violation_w(&site, "pre-image-lane-equal-to-its-w-not-divided-to-exactly-1", json!({"input": inp(), "lane": lane, "got": jf(&got), "want": "1"}), 300 + n as u64); }
+                    }
+                }
+            }
+        } }
+        // ---- E3: picking regions that are the viewport, its centred quarter, its first quadrant: scale = +-1, +-4, +-2 and offset 0 / +-1 exactly
+        for vp in nvps.iter().copied() {
+            let (aw, ah) = (Real::abs(vp[2]), Real::abs(vp[3]));
+            let mid = [vp[0] + vp[2] / qi(2), vp[1] + vp[3] / qi(2)];
+            for (what, c, d) in [("the viewport", mid, [aw, ah]), ("centred, a quarter of the extents", mid, [aw / qi(4), ah / qi(4)]), ("first quadrant", [vp[0] + vp[2] / qi(4), vp[1] + vp[3] / qi(4)], [aw / qi(2), ah / qi(2)]), ("full width, quarter height", mid, [aw, ah / qi(4)])] {
+                let (vpf, cf, df) = (arr_f::<F, 4>(&vp), arr_f::<F, 2>(&c), arr_f::<F, 2>(&d));
+                for row in [true, false] {
+                    k += 1;
+                    s.eval(true); s.class(names[3]); s.class(if row { "layout-row" } else { "layout-col" });
+                    let site = format!("Mat4<{}>::picking_region<{}>", lay(row), F::NAME);
+                    let inp = || json!({"region": what, "center": jxs(&c), "delta": jxs(&d), "viewport(x,y,w,h)": jxs(&vp), "element": F::NAME});
+                    let Some(m) = s.call(&site, inp, || pick_form::<F>(k, row, &cf, &df, &vpf)) else { continue };
+                    let mx = map4(&m, |v| X::R(vx::fl::qf(v.f())));
+                    if let Some(bad) = pick_bad(&mx, &c, &d, &vp) {
+                        s.violation_w(&site, "region-with-exact-scale-and-offset-not-mapped-exactly-onto-the-clip-square", json!({"input": inp(), "matrix": format!("{:?}", m), "first_failing_corner": bad}), 400);
+                    }
+                }
+            }
+        }
+        // ---- E4: translation laws far from the origin (the subtractions x - vp.x, center - vp.x are exact: both operands are floats, the difference is a short dyadic)
+        let big = |frac_bits: i32| -> X { let mant = if F::NAME == "f32" { 24 } else { 53 }; pow2(mant - 1 - frac_bits - 1) }; // t with ulp(2t) = 2^-frac_bits
+        let (fmv, fpj) = (float_modelviews(), float_projections());
+        for (mi, pi) in [(0usize, 0usize), (1, 2), (2, 1), (3, 3)] {
+            let (mvf, pf) = (mat_f::<F>(&fmv[mi].1), mat_f::<F>(&fpj[pi].1));
+            for t in tsteps.iter().map(|&k| big(5) / pow2(k)) {
+            for vp in [[qi(10), qi(-20), qi(3), qi(-7)], [qi(-4), qi(8), q(5, 4), q(7, 8)]] { for off in [[q(3, 4), q(-1, 2)], [q(5, 2), q(1, 4)]] { for z in [q(1, 4), qi(1)] {
+                let ray = [vp[0] + off[0], vp[1] + off[1], z];
+                let (vpt, rayt) = ([vp[0] + t, vp[1] - t, vp[2], vp[3]], [ray[0] + t, ray[1] - t, z]);
+                let (vpf, rayf, vptf, raytf) = (arr_f::<F, 4>(&vp), arr_f::<F, 3>(&ray), arr_f::<F, 4>(&vpt), arr_f::<F, 3>(&rayt));
+                for fl in FLS { for row in [true, false] {
+                    k += 1; let form = FORMS[(k + k / 4) % 4];
+                    s.eval(true); s.class(names[4]); fcls(s, fl, row);
+                    let site = format!("Mat4<{}>::viewport_to_world_{}<{}>", lay(row), fl.s(), F::NAME);
+                    let inp = || json!({"modelview": fmv[mi].0, "projection": fpj[pi].0, "viewport(x,y,w,h)": jxs(&vp), "window_point": jxs(&ray), "translation of window x,y and viewport origin": jxs(&[t, -t]), "element": F::NAME});
+                    let Some(base) = s.call(&site, inp, || v2w_form::<F>(form, row, fl, &rayf, &mvf, &pf, &vpf)) else { continue };
+                    let Some(got) = s.call(&site, inp, || v2w_form::<F>(form, row, fl, &raytf, &mvf, &pf, &vptf)) else { continue };
+                    if !same(&got, &base) { s.violation_w(&site, "result-changes-when-window-point-and-viewport-are-translated-together(exact subtraction)", json!({"input": inp(), "got": jf(&got), "untranslated": jf(&base)}), 500); }
+                } }
+            } } }
+            }
+        }
+        for t in tsteps.iter().map(|&k| big(2) / pow2(k)) {
+            for vp in [[qi(10), qi(-20), q(11, 8), q(7, 8)], [qi(-4), qi(8), qi(-3), qi(7)], [qi(0), qi(0), q(2565, 8), q(-3847, 8)]] { for off in [[q(1, 4), q(-1, 2)], [q(3, 2), qi(2)]] { for d in [[qi(5), qi(3)], [q(1, 4), q(1, 8)], [q(7, 5), q(3, 7)]] {
+                let c = [vp[0] + off[0], vp[1] + off[1]];
+                let (vpt, ct) = ([vp[0] + t, vp[1] - t, vp[2], vp[3]], [c[0] + t, c[1] - t]);
+                // the size need not be dyadic: it is the same float in both calls
+                let df = [F::of(d[0].shadow()), F::of(d[1].shadow())];
+                let (vpf, cf, vptf, ctf) = (arr_f::<F, 4>(&vp), arr_f::<F, 2>(&c), arr_f::<F, 4>(&vpt), arr_f::<F, 2>(&ct));
+                for row in [true, false] {
+                    k += 1;
+                    s.eval(true); s.class(names[5]); s.class(if row { "layout-row" } else { "layout-col" });
+                    let site = format!("Mat4<{}>::picking_region<{}>", lay(row), F::NAME);
+                    let inp = || json!({"center": jxs(&c), "delta(rounded to the element type)": jxs(&d), "viewport(x,y,w,h)": jxs(&vp), "translation of centre and viewport origin": jxs(&[t, -t]), "element": F::NAME});
+                    let Some(base) = s.call(&site, inp, || pick_form::<F>(k, row, &cf, &df, &vpf)) else { continue };
+                    let Some(got) = s.call(&site, inp, || pick_form::<F>(k, row, &ctf, &df, &vptf)) else { continue };
+                    if got != base { s.violation_w(&site, "matrix-changes-when-centre-and-viewport-are-translated-together(exact subtraction)", json!({"input": inp(), "got": format!("{:?}", got), "untranslated": format!("{:?}", base)}), 600); }
+                }
+            } } }
+        }
+        // ---- E5: world point p + t seen through the model-view S T(-t) (S a signed permutation): MV (p + t, 1) = S p exactly, so the window point is that of (p, S)
+        {
+            let o = |v: f64| F::of(v);
+            let z = F::zero();
+            let mut pjs_f: Vec<(&str, A<F, 4>)> = vec![
+                ("frustum-like, entries not dyadic", [[o(0.7), z, o(0.1), z], [z, o(1.3), o(-0.2), z], [z, z, o(-1.1), o(-0.3)], [z, z, -F::one(), z]]),
+                ("dense, entries not dyadic", [[o(0.3), o(-0.7), o(0.2), o(1.1)], [o(0.9), o(0.1), o(-0.4), o(0.6)], [o(-0.2), o(0.5), o(1.7), o(-0.8)], [o(0.1), o(-0.3), o(0.7), o(1.9)]]),
+            ];
+            if let Ok(m) = catch(|| dr4(&rm::Mat4::<F>::perspective_rh_no(o(1.0), o(1.5), o(0.1), o(100.0)))) { pjs_f.push(("perspective_rh_no(1, 1.5, 0.1, 100) (real builder, decoded)", m)); }
+            assert!(pjs_f.len() == 3, "perspective_rh_no panicked on floats");
+            for t0 in tsteps.iter().map(|&k| (if F::NAME == "f32" { pow2(16) } else { pow2(40) }) / pow2(k)) {
+            let t = [t0, qi(-2) * t0, qi(3) * t0];
+            let perms: [(&str, [[i64; 3]; 3]); 3] = [("identity", [[1, 0, 0], [0, 1, 0], [0, 0, 1]]), ("RZ(90)", [[0, -1, 0], [1, 0, 0], [0, 0, 1]]), ("(z,-x,-y)", [[0, 0, 1], [-1, 0, 0], [0, -1, 0]])];
+            for (pname, pf) in &pjs_f { for (sname, sm) in &perms {
+                let sx: A<X, 3> = [[xi(sm[0][0]), xi(sm[0][1]), xi(sm[0][2])], [xi(sm[1][0]), xi(sm[1][1]), xi(sm[1][2])], [xi(sm[2][0]), xi(sm[2][1]), xi(sm[2][2])]];
+                let st = mvec(&sx, &t);
+                let (mv0, mvt) = (affine4(&sx, &[qi(0); 3]), affine4(&sx, &[-st[0], -st[1], -st[2]]));
+                let (mv0f, mvtf) = (mat_f::<F>(&mv0), mat_f::<F>(&mvt));
+                for pt in [[q(1, 4), q(-3, 2), q(-5, 4)], [qi(3), q(1, 2), q(-7, 4)], [q(-9, 8), q(5, 8), qi(-2)]] { for vp in [[qi(0), qi(0), qi(640), qi(480)], [qi(10), qi(-20), qi(3), qi(-7)]] {
+                    let ptt = [pt[0] + t[0], pt[1] + t[1], pt[2] + t[2]];
+                    let (ptf, pttf, vpf) = (arr_f::<F, 3>(&pt), arr_f::<F, 3>(&ptt), arr_f::<F, 4>(&vp));
+                    for fl in FLS { for row in [true, false] {
+                        k += 1; let form = FORMS[(k + k / 4) % 4];
+                        s.eval(true); s.class(names[6]); fcls(s, fl, row);
+                        let site = format!("Mat4<{}>::world_to_viewport_{}<{}>", lay(row), fl.s(), F::NAME);
+                        let inp = || json!({"projection": pname, "P": format!("{:?}", pf), "modelview": format!("{} T(-t)", sname), "t": jxs(&t), "point": jxs(&pt), "point + t": jxs(&ptt), "viewport(x,y,w,h)": jxs(&vp), "element": F::NAME});
+                        let Some(base) = s.call(&site, inp, || w2v_form::<F>(form, row, fl, &ptf, &mv0f, pf, &vpf)) else { continue };
+                        let Some(got) = s.call(&site, inp, || w2v_form::<F>(form, row, fl, &pttf, &mvtf, pf, &vpf)) else { continue };
+                        if !(same(&got, &base)) || got.iter().any(|v| v.f().is_nan()) { s.violation_w(&site, "result-changes-when-world-and-camera-are-translated-together(model-view times point is exact)", json!({"input": inp(), "got": jf(&got), "untranslated": jf(&base)}), 700); }
+                    } }
+                } }
+            } }
+            }
+        }
+        s.meta("constants", json!({"element": F::NAME, "n with n*(1/n) != 1": ns, "translation of window/viewport": format!("{:?}", big(5)), "translation of picking centre/viewport": format!("{:?}", big(2)), "world translation unit": if F::NAME == "f32" { "2^16" } else { "2^40" }, "translations also divided by 2^": tsteps}));
+        s.sample(json!({"law": "world_to_viewport of a point with clip x = w = n gives exactly vp.x + vp.w", "element": F::NAME, "n": ns[0]}));
+    }
+    let fe_rule = |e: &str| format!("element type {e}, every input exactly representable, {{_no,_zo}} x {{row,col}}, argument forms in rotation; n1, n2 = the first two odd integers with n * (1/n) != 1 in {e} (thorough: the first eight, viewports from consecutive pairs; every translation also at 2^-4, 2^-8, 2^-12, 2^-16 of its size). EXACT results (==, no tolerance; every operation of the documented formula is exact on these inputs): (E1) 2 n x {{P = diag(1,1,1,n), P = z/w swap}} x {{MV = I, T(3,-5,2)}} x 8 (4) sign patterns of a point with clip (x,y,z) = (+-n,+-n,+-n), clip w = n x 4 viewports (one with negative width, one 2^20 from the origin): the window point is exactly the viewport corner and depth 0|1 (-1|1 zo); (E2) 4 dyadic matrix pairs x 3 viewports with extents +-n1, +-n2 x window x in {{left, right, middle}} x y in {{bottom, top}} x depths {{0,1/4,1,3/2}}: the exact pre-image; (E2b) 3 lanes x 2 n x 2 splits of an integer unimodular P MV whose pre-image has lane = w = n: that lane of the result is exactly 1; (E3) 3 such viewports x regions {{viewport, centred quarter, first quadrant, full width x quarter height}}: the float matrix, read as exact rationals, satisfies the corner law exactly. BITWISE translation laws: (E4) viewport_to_world is unchanged when window x,y and the viewport origin move by (t,-t) (4 matrix pairs x 2 viewports x 2 window offsets x 2 depths), picking_region is unchanged when centre and viewport origin move by (t,-t) (3 viewports x 2 centre offsets x 3 sizes), t chosen so that every translated input is representable; (E5) world_to_viewport(p + t, S T(-t), P) = world_to_viewport(p, S, P) for 3 signed permutations S x 3 projections with non-dyadic entries (one from the real perspective builder) x 3 points x 2 viewports, t = (1,-2,3) 2^40 (f32: 2^16): MV (p+t,1) = (S p, 1) exactly in floats; non-trivial: all");
+    rep.section("floats f64: results that are exact by construction (w/w = 1) and bitwise translation laws far from the origin", &fe_rule("f64"), true, false, |s| float_exact_section::<f64>(s));
+    rep.section("floats f32: results that are exact by construction (w/w = 1) and bitwise translation laws far from the origin", &fe_rule("f32"), true, false, |s| float_exact_section::<f32>(s));
 
     std::process::exit(rep.finish());
 }
